@@ -110,8 +110,7 @@ impl TxtppPath for PathBuf {
         let mut p = self.clone();
         p.set_extension("");
         if matches!(p.extension(), Some(ext) if ext == TXTPP_EXT) {
-            // remove the txtpp extension and add the original back
-            p.set_extension("");
+            // replace the txtpp extension with the original one
             let self_ext = self.extension().ok_or_else(|| {
                 Report::new(PathError::from(self))
                     .attach_printable(format!("path does not have {TXTPP_EXT} extension"))
